@@ -1175,8 +1175,15 @@ def run_separated(repo, seed, n_pairs, n_states, hist, budget_s):
   for mi in range(n_pairs):
     if time.time() - t0 > budget_s:
       break
-    near = mi == 0
-    if near:
+    near = mi in (0, 1)
+    if mi == 1:
+      # a body hovering 0.2-0.9 mm above the ground, no collision margin: the narrow band just above contact
+      shape, size, dens = rand_body(rng)
+      quat = modelgen.rand_unit_quat(rng)
+      gap = float(rng.uniform(0.0002, 0.0009))
+      xml = body_scene(shape, size, dens, lowest_point(shape, size, quat_to_mat(quat)) + gap, quat=quat)
+      types = f'hovering {shape} gap {gap * 1e3:.2f}mm'
+    elif near:
       # a body hovering 2-30 mm above the ground: collision geometry that ALMOST touches
       shape, size, dens = rand_body(rng)
       quat = modelgen.rand_unit_quat(rng)
@@ -1352,7 +1359,7 @@ def spec_jobs(ctx, seed_offset=0, scale=1.0):
   b = ctx.budget(100, 900) * scale
   n = lambda quick, thorough: max(1, int(round((quick if q else thorough) * scale)))
   return [
-      (run_separated, (ctx.repo, sd + 11, n(2, 14), 2, 12 if q else 40, b)),
+      (run_separated, (ctx.repo, sd + 11, n(3, 14), 2, 12 if q else 40, b)),
       (run_limit, (ctx.repo, sd + 12, n(3, 16), 2, b)),
       (run_push, (ctx.repo, sd + 13, n(2, 12), b)),
       (run_rest, (ctx.repo, sd + 14, n(1, 10), 3.0, b)),
